@@ -257,7 +257,7 @@ def rand_form_doc(rng, nmax):
             if nkids[p] >= 1:
                 spine = spine[:-1] or [root]
                 continue
-            name = rng.choice(['div', 'form', 'div'])
+            name = rng.choice(['div', 'form', 'div', 'input'])
         elif pname == 'textarea':
             name = 'text'
         else:
@@ -456,13 +456,11 @@ def main(tier):
     else:
         runs = [('MC_C17_default', {'MaxNodes': 5, 'MaxDepth': 4}, 'default5', ('Emit', 'ThDefault', 'ThBoundary', 'ThPartitions')),
                 ('MC_C17_indet', {'MaxNodes': 5, 'MaxDepth': 4, 'Rich': 'FALSE'}, 'indet5', ('Emit', 'ThGroup', 'ThBoundary')),
-                ('MC_C17_indet', {'MaxNodes': 4, 'MaxDepth': 4, 'Rich': 'TRUE'}, 'indet4r', ('Emit', 'ThGroup', 'ThBoundary')),
-                ('MC_C17_disabled', {'MaxNodes': 5, 'MaxDepth': 5, 'Level': 0}, 'disabled5', ('Emit', 'ThPartitions', 'ThBoundary')),
                 ('MC_C17_disabled', {'MaxNodes': 4, 'MaxDepth': 4, 'Level': 2}, 'disabled4r', ('Emit', 'ThPartitions', 'ThBoundary')),
-                ('MC_C17_dir', {'MaxNodes': 5, 'MaxDepth': 4, 'Rich': 'FALSE'}, 'dir5', ('Emit', 'ThPartitions', 'ThDirReadings')),
                 ('MC_C17_dir', {'MaxNodes': 4, 'MaxDepth': 4, 'Rich': 'TRUE'}, 'dir4r', ('Emit', 'ThPartitions', 'ThDirReadings')),
+                ('MC_C17_indet', {'MaxNodes': 4, 'MaxDepth': 4, 'Rich': 'TRUE'}, 'indet4r', ('Emit', 'ThGroup', 'ThBoundary')),
                 ('MC_C17_attrs', {'Rich': 'TRUE'}, 'attrs-rich', ('Emit', 'ThPartitions')),
-                ('MC_C17_ns', {'MaxNodes': 4}, 'ns4', ('Emit', 'ThPartitions', 'ThFrame', 'ThDirReadings'))]
+                ('MC_C17_ns', {'MaxNodes': 3}, 'ns3', ('Emit', 'ThPartitions', 'ThFrame', 'ThDirReadings'))]
         par, workers = 4, 4
     jobs = [('trace-c17', None)] + [(label, (module, consts, invs)) for module, consts, label, invs in runs]
     routers = run_side_by_side(jobs, tier, par, workers)
